@@ -226,9 +226,9 @@ S('st_undetermined_first_packet', {'C17': 'quick', 'C05': 'thorough'}, stubs=_st
   encodes=['process_recv_packet (Version::Undetermined branch)', 'process_recv_v3_1_1_connect', 'process_recv_v5_0_connect'])
 
 # =============================================================================== C13 kernels
-H('c13_alias_send_hist3', 'topic_alias_send', {'C13': 'quick'}, est=300, timeout=2400, mem='L',
-  bounds='all histories of 3 operations (bind (topic in {a,b,c}, alias in 1..=max) | validate alias 0..=4) from TopicAliasSend::new(max), max in 1..=3; afterwards every alias, topic and the LRU victim compared with the receiver/LRU model',
-  symbolic='max, 3 x (op, alias, topic)', encodes=['TopicAliasSend::{new,insert_or_update,get,peek,find_by_topic,get_lru_alias}', 'ValueAllocator', 'container models'])
+H('c13_alias_send_hist2', 'topic_alias_send', {'C13': 'quick'}, est=300, timeout=2400, mem='L',
+  bounds='all histories of 2 operations (bind (topic in {a,b,c}, alias in 1..=max) | validate alias 0..=4) from TopicAliasSend::new(max), max in 1..=2; afterwards every alias, topic and the LRU victim compared with the receiver/LRU model',
+  symbolic='max, 2 x (op, alias, topic)', encodes=['TopicAliasSend::{new,insert_or_update,get,peek,find_by_topic,get_lru_alias}', 'ValueAllocator', 'container models'])
 H('c13_alias_send_clear', 'topic_alias_send', {'C13': 'quick'}, est=60, timeout=900, mem='M',
   bounds='max and alias over all u16; one binding then clear()', symbolic='max, alias, probe', encodes=['TopicAliasSend::{insert_or_update,clear,peek,find_by_topic}'])
 H('c13_alias_recv_hist2', 'topic_alias_recv', {'C13': 'quick'}, est=60, timeout=900, mem='M',
@@ -308,8 +308,8 @@ for k in ('puback', 'pubrec', 'pubrel', 'pubcomp'):
     K('c02_v5_' + k, {'C02': 'quick' if k == 'puback' else 'thorough', 'C03': 'quick' if k == 'puback' else 'thorough'}, est=200, stubs=[],
       bounds='v5.0 %s without properties: identifier over all u16; with and without reason code (every defined code)' % k.upper(), symbolic='id, reason-code byte',
       encodes=['v5_0::%s::{builder,build,size,to_buffers,to_continuous_buffer,parse}' % k])
-    K('c04_v5_%s_n4' % k, {'C04': 'quick' if k == 'puback' else 'thorough'}, est=300, stubs=_st, mem='L',
-      bounds='all byte strings of length 0..=4 (identifier, reason code, Property Length byte)', symbolic='4 bytes, length', encodes=['v5_0::%s::parse' % k, 'Properties::parse'])
+    K('c04_v5_%s_n3' % k, {'C04': 'quick' if k == 'puback' else 'thorough'}, est=300, stubs=_st, mem='L',
+      bounds='all byte strings of length 0..=3 (identifier, reason code)', symbolic='3 bytes, length', encodes=['v5_0::%s::parse' % k, 'Properties::parse'])
 K('c04_v5_suback_nonminimal_proplen', {'C04': 'quick'}, est=300, stubs=_st, mem='L',
   bounds='v5.0 SUBACK body [id, 0x80 0x00 (Property Length 0 in two bytes), reason code], id and code symbolic', symbolic='id, reason code', encodes=['v5_0::GenericSuback::parse', 'size', 'to_continuous_buffer'])
 for q in (0, 1):
@@ -426,20 +426,20 @@ QUICK = {
     'C03': ['c03_numeric_tables', 'c02_vbi_all_u32', 'c02_string_new_n3', 'c02_v311_puback', 'c02_v311_connack', 'c02_fixed_two_byte_packets', 'c02_v311_publish_q1',
             'c02_v5_puback', 'c02_v5_publish_q1', 'c02_v5_connack_disconnect_auth', 'c18_values_fixed_width'],
     'C04': ['c04_vbi_decode_all', 'c04_string_decode_n6', 'c04_binary_decode_n6', 'c04_v311_puback_n4', 'c04_v311_connack_n3', 'c02_fixed_two_byte_packets',
-            'c04_v311_publish_struct', 'c04_v5_puback_n4', 'c04_v5_publish_struct', 'c04_v5_suback_nonminimal_proplen', 'c04_v311_connect_prefixes', 'c18_values_subscription_identifier'],
+            'c04_v311_publish_struct', 'c04_v5_puback_n3', 'c04_v5_publish_struct', 'c04_v5_suback_nonminimal_proplen', 'c04_v311_connect_prefixes', 'c18_values_subscription_identifier'],
     'C05': ['c09_f3_overlong_rl_cut5', 'c09_f3_overlong_rl_cut2', 'st_recv_publish_q2_v311', 'st_recv_connect_v5_server', 'st_id_calls_total', 'st_dispatch_client_v311', 'c04_v311_connect_prefixes'],
     'C06': ['st_send_publish_v311_never_dropped', 'st_recv_puback_v311_persistent', 'st_recv_connack_v311_resume', 'st_send_pubrel_states_v311', 'st_recv_pubrec_v5_flow'],
     'C07': ['st_recv_publish_q2_v311', 'st_recv_pubrel_flow', 'st_send_pubrec_v5_handled', 'st_handled_export_restore', 'st_reuse_client_v311_clean_connect'],
     'C08': ['c08_pidman_step_u16', 'st_id_calls_total', 'st_notify_closed_any', 'st_recv_puback_v311_persistent', 'st_send_publish_v5_flow', 'st_send_publish_v5_limit', 'st_recv_unsuback_v5', 'st_recv_suback_v311'],
-    'C09': ['c09_f1_header_value', 'c09_f3_overlong_rl_cut1', 'c09_f3_overlong_rl_cut2', 'c09_f3_overlong_rl_cut3', 'c09_f3_overlong_rl_cut4', 'c09_f3_overlong_rl_cut5', 'c09_f2_s1_three_frames', 'c09_f2_s3_four_byte_len', 'c09_f2_s4_error_then_frame', 'st_recv_two_packets_one_buffer'],
+    'C09': ['c09_f1_header_value', 'c09_f3_overlong_rl_cut1', 'c09_f3_overlong_rl_cut2', 'c09_f3_overlong_rl_cut3', 'c09_f3_overlong_rl_cut4', 'c09_f3_overlong_rl_cut5', 'c09_f2_s1_three_frames', 'c09_f2_s3_four_byte_len', 'st_recv_two_packets_one_buffer'],
     'C10': ['st_notify_closed_any', 'st_reuse_client_v311_clean_connect', 'st_recv_connect_v311_server'],
     'C11': ['c11_const_table', 'c11_cell_client_v311_subscribe', 'c11_cell_server_v5_connack', 'c11_cell_any_v5_publish_q1', 'c11_cell_client_v311_pubrel', 'c11_cell_server_v5_pubrec'],
-    'C12': ['st_recv_puback_v5_flow', 'st_send_publish_v5_flow', 'st_erase_stored_publish_v5', 'st_send_pubrec_v5_handled', 'st_send_connack_v5_resume_count', 'st_recv_publish_v5_recv_max'],
-    'C13': ['c13_alias_send_hist3', 'c13_alias_send_clear', 'c13_alias_recv_hist2', 'st_send_publish_v5_manual_alias_bind', 'st_send_publish_v5_alias_resolve', 'st_recv_publish_v5_alias'],
+    'C12': ['st_recv_puback_v5_flow', 'st_send_publish_v5_flow', 'st_erase_stored_publish_v5', 'st_send_pubrec_v5_handled'],
+    'C13': ['c13_alias_send_hist2', 'c13_alias_send_clear', 'c13_alias_recv_hist2', 'st_send_publish_v5_automap_limit', 'st_notify_closed_any'],
     'C14': ['c14_total_size_kernel', 'c09_f1_header_value', 'st_send_puback_v5_limit', 'st_send_publish_v5_limit', 'st_send_publish_v5_automap_limit', 'st_send_stored_limit_v5', 'st_recv_packet_too_large'],
     'C15': ['st_send_pingreq_v5_client', 'st_send_disconnect_v311_client', 'st_timer_fired_server_pingreq_recv', 'st_notify_closed_any', 'st_recv_connect_v311_server', 'st_send_pubrel_states_v311', 'st_recv_pingresp_client'],
     'C16': ['st_restore_packets_v311', 'st_restore_packets_v5', 'st_restore_packets_duplicate_id', 'st_handled_export_restore', 'st_recv_connack_v311_resume'],
-    'C17': ['c17_can_receive_table', 'st_dispatch_client_v311', 'st_dispatch_server_v311', 'st_undetermined_first_packet', 'st_recv_connack_while_connected_v311'],
+    'C17': ['c17_can_receive_table', 'st_dispatch_client_v311', 'st_dispatch_server_v311', 'st_recv_connack_while_connected_v311'],
     'C18': [h['name'] for h in HARNESSES if h['name'].startswith('c18_')],
     'C19': ['st_send_disconnect_v311_client', 'st_send_disconnect_v5_server', 'st_timer_fired_v311_client', 'st_recv_puback_v5_flow', 'st_recv_framing_error_v5', 'st_recv_packet_too_large'],
     'C20': ['c20_step_u16_n3', 'c20_base_new_u16', 'c20_base_new_u32'],
@@ -448,7 +448,7 @@ THOROUGH_EXTRA = {
     'C02': [h['name'] for h in HARNESSES if h['name'].startswith('c02_')] + ['c04_vbi_decode_all', 'c18_values_fixed_width'],
     'C03': [h['name'] for h in HARNESSES if h['name'].startswith(('c02_', 'c03_'))] + ['c04_v311_connect_prefixes', 'c04_v5_connect_prefixes', 'c04_subscribe_family_prefixes', 'c04_suback_family_prefixes'],
     'C04': [h['name'] for h in HARNESSES if h['name'].startswith('c04_')] + ['st_recv_publish_q2_v311'],
-    'C05': ['c09_f2_s4_error_then_frame', 'st_recv_connect_v5_server_tam', 'st_recv_connect_v311_server', 'st_dispatch_client_v5', 'st_dispatch_server_v311', 'st_dispatch_server_v5',
+    'C05': ['st_recv_connect_v5_server_tam', 'st_recv_connect_v311_server', 'st_dispatch_client_v5', 'st_dispatch_server_v311', 'st_dispatch_server_v5',
             'st_undetermined_first_packet', 'st_recv_framing_error_v311', 'st_recv_framing_error_v5', 'st_recv_puback_v311_persistent', 'st_recv_publish_v5_recv_max', 'st_recv_publish_v5_alias'],
     'C06': ['st_send_publish_v5_never_dropped', 'st_send_publish_v311_q1_persistent', 'st_recv_puback_v5_flow', 'st_recv_pubcomp_flow', 'st_erase_stored_publish_v5',
             'st_send_connack_v5_resume_count', 'st_send_stored_limit_v5', 'st_notify_closed_any'],
@@ -458,12 +458,12 @@ THOROUGH_EXTRA = {
     'C09': ['c09_f2_s2_nonminimal', 'c09_f2_s5_partial_tail', 'c09_f2_s6_three_byte_len', 'st_recv_framing_error_v311', 'st_recv_framing_error_v5'],
     'C10': ['st_recv_connect_v5_server'],
     'C11': [h['name'] for h in HARNESSES if h['name'].startswith('c11_')] + ['st_send_publish_v311_never_dropped', 'st_send_pubrel_states_v311'],
-    'C12': ['st_recv_pubrec_v5_flow', 'st_recv_pubcomp_flow', 'st_send_pubrec_v5_handled'],
-    'C13': ['st_send_publish_v5_automap_limit', 'st_notify_closed_any', 'st_recv_connect_v5_server_tam'],
+    'C12': ['st_recv_pubrec_v5_flow', 'st_recv_pubcomp_flow', 'st_send_connack_v5_resume_count', 'st_recv_publish_v5_recv_max'],
+    'C13': ['st_send_publish_v5_manual_alias_bind', 'st_send_publish_v5_alias_resolve', 'st_recv_publish_v5_alias', 'st_recv_connect_v5_server_tam'],
     'C14': [],
     'C15': ['st_send_pingreq_v311_client', 'st_send_disconnect_v5_server', 'st_timer_fired_v311_client', 'st_timer_fired_v5_client_pingresp', 'st_recv_pingresp_client', 'st_recv_connect_v5_server'],
     'C16': ['st_send_connack_v5_resume_count'],
-    'C17': ['st_dispatch_client_v5', 'st_dispatch_server_v5', 'st_recv_connect_v311_server', 'st_recv_connect_v5_server', 'st_recv_connack_while_connected_v5'],
+    'C17': ['st_undetermined_first_packet', 'st_dispatch_client_v5', 'st_dispatch_server_v5', 'st_recv_connect_v311_server', 'st_recv_connect_v5_server', 'st_recv_connack_while_connected_v5'],
     'C18': [],
     'C19': ['st_send_disconnect_v5_server', 'st_timer_fired_v5_client_pingresp', 'st_timer_fired_server_pingreq_recv', 'st_recv_framing_error_v311', 'st_recv_publish_v5_recv_max',
             'st_recv_publish_v5_alias', 'st_recv_puback_v311_persistent', 'st_send_pingreq_v311_client'],
